@@ -1,0 +1,29 @@
+//go:build verif
+
+package node
+
+import (
+	"github.com/youzan/ZanRedisDB/common"
+	"github.com/youzan/ZanRedisDB/raft"
+)
+
+// verifCrashPoint is a named crash point of the verification harness (/verif, property C06):
+// see common/verif_crash.go. Built only with -tags verif.
+func verifCrashPoint(name string, args ...uint64) {
+	common.VerifCrashPoint(name, args...)
+}
+
+// verifReady projects a raft.Ready to the numbers the C06 path model follows:
+// [#entries, first index, last index, hardstate term, vote, commit, #committed entries, first, last, snapshot term, snapshot index]
+func verifReady(rd *raft.Ready) []uint64 {
+	out := make([]uint64, 11)
+	if n := len(rd.Entries); n > 0 {
+		out[0], out[1], out[2] = uint64(n), rd.Entries[0].Index, rd.Entries[n-1].Index
+	}
+	out[3], out[4], out[5] = rd.HardState.Term, rd.HardState.Vote, rd.HardState.Commit
+	if n := len(rd.CommittedEntries); n > 0 {
+		out[6], out[7], out[8] = uint64(n), rd.CommittedEntries[0].Index, rd.CommittedEntries[n-1].Index
+	}
+	out[9], out[10] = rd.Snapshot.Metadata.Term, rd.Snapshot.Metadata.Index
+	return out
+}
